@@ -28,3 +28,44 @@ package getsvc
 //@   ensures [stops_exactly_at_the_child_covering_the_range_end] !result == (wide(deref(bytesSeen)) > wide(leftBound) && wide(rightBound) <= wide(deref(bytesSeen)))
 //@   ensures [right_bound_is_the_range_end_inside_the_last_child] !result ==> deref(lastChildIndex) == p0 && wide(deref(lastChildRightBound)) + wide(old(deref(bytesSeen))) == wide(rightBound)
 //@   ensures [invariant_kept] (deref(firstChildIndex) == -1 ==> wide(deref(bytesSeen)) <= wide(leftBound)) && (result ==> wide(deref(bytesSeen)) <= wide(rightBound))
+
+// Walking a V1 split chain back from the last part: for the child that occupies
+// [curOff, curOff+size) of the payload, the range asked from it is exactly the intersection of
+// that interval with the requested [from, to), expressed relative to the child.
+//@ ghost pred childSize() uint64
+//@ callrule c23_child_size in (*execCtx).buildChainInReverse
+//@   callee (*object.Object).PayloadSize, (object.Object).PayloadSize
+//@   pureeffect
+//@   defines result == childSize()
+//@ callrule c23_child_range_offset in (*execCtx).buildChainInReverse
+//@   callee (*object.Range).SetOffset
+//@   pureeffect
+//@   requires [offset_is_range_start_inside_the_child] exec.curOff + childSize() >= exec.curOff ==> a0 == max(from, exec.curOff) - exec.curOff
+//@ callrule c23_child_range_length in (*execCtx).buildChainInReverse
+//@   callee (*object.Range).SetLength
+//@   pureeffect
+//@   requires [length_when_child_inside_range] exec.curOff + childSize() >= exec.curOff && from <= exec.curOff && exec.curOff + childSize() <= to ==> a0 == childSize()
+//@   requires [length_when_range_ends_in_child] exec.curOff + childSize() >= exec.curOff && from <= exec.curOff && to < exec.curOff + childSize() ==> a0 == to - exec.curOff
+//@   requires [length_when_range_starts_in_child] exec.curOff + childSize() >= exec.curOff && from > exec.curOff && exec.curOff + childSize() <= to ==> a0 == exec.curOff + childSize() - from
+//@   requires [length_when_range_inside_child] exec.curOff + childSize() >= exec.curOff && from > exec.curOff && from <= to && to < exec.curOff + childSize() ==> a0 == to - from
+//@ callrule c23_chain_collaborators in (*execCtx).buildChainInReverse
+//@   callee (*getsvc.execCtx).ctxRange, (*get.execCtx).ctxRange, (*get.execCtx).headChild, (*object.Range).GetOffset, (*object.Range).GetLength, (*object.Object).GetID, (object.Object).GetID, (*object.Object).GetPreviousID, (object.Object).GetPreviousID, (id.ID).IsZero
+//@   pureeffect
+//@ func (*execCtx).buildChainInReverse
+//@   opt wide=68
+
+// Recovery of an EC range after one part failed to stream: reading resumes in the failed
+// part, after what was already written of it; the offset inside the originally first part is
+// kept only if that very part failed.
+//@ ghost pred origFirstIdx() int
+//@ ghost pred origFirstOff() uint64
+//@ ghost pred failedIdx() int
+//@ ghost pred failedWritten() uint64
+//@ callrule c23_first_stage_outcome in (*Service).copyECObjectRangeByParts
+//@   callee (*get.Service).copyECPartsRanges
+//@   defines a9 == origFirstIdx() && a10 == origFirstOff() && res0 == failedIdx() && res1 == failedWritten()
+//@ callrule c23_recovery_resumes_in_the_failed_part in (*Service).copyECObjectRangeByParts
+//@   callee ec.DecodeRange
+//@   requires [recovery_starts_at_the_failed_part_after_what_was_written] a1 == failedIdx() && (wide(origFirstOff()) + wide(failedWritten()) < 18446744073709551616 ==> wide(firstPartOff) == ite(failedIdx() != origFirstIdx(), 0, wide(origFirstOff())) + wide(failedWritten()))
+//@ func (*Service).copyECObjectRangeByParts
+//@   opt wide=80
